@@ -347,7 +347,7 @@ example : certify [⟨0, 1, ⟨0, 100⟩⟩] [(0, 2)] ⟨99, 200⟩ = .error "Co
 end C04
 
 /-! ## T-tie: the Python half of `decertify` **as translated from `byDimensions/_manager.py` on every run**
-(`translate/gen_decertify.py`: from `rows_to_delete = []` on — the loop over the rows of the overlap query, the pieces
+(`translate/gen_decertify.py`: `decertify` from `rows_to_delete = []` on — the loop over the rows of the overlap query, the pieces
 `Timespan.difference` leaves, the DELETE and the INSERT).  The overlap query itself stays tied by the correspondence. -/
 namespace C04.Translated
 open Calib Gen
@@ -444,6 +444,177 @@ theorem translated_decertify (s : List IdRow) (hn : (s.map (·.1)).Nodup) (ts : 
 /-- non-vacuity: [0,10) of dataset 7 with [3,5) decertified -/
 example : (Gen.DecertifyPy.decertifyPy ⟨3, 5⟩ [(1, ⟨1, 7, ⟨0, 10⟩⟩)] [(1, ⟨1, 7, ⟨0, 10⟩⟩), (2, ⟨2, 8, ⟨0, 10⟩⟩)]).map (·.2) =
     [⟨2, 8, ⟨0, 10⟩⟩, ⟨1, 7, ⟨0, 3⟩⟩, ⟨1, 7, ⟨5, 10⟩⟩] := by decide
+
+/-! ### the Python half of `certify` -/
+
+section Certify
+open Py
+def addKeys (acc : List Nat) (batch : List (Nat × Nat)) : List Nat := batch.foldl (fun a b => setAdd a b.1) acc
+
+theorem setAdd_len (l : List Nat) (x : Nat) : (setAdd l x).length = if l.contains x then l.length else l.length + 1 := by
+  unfold setAdd; split <;> simp
+
+theorem setAdd_mem (l : List Nat) (x y : Nat) : y ∈ setAdd l x ↔ y ∈ l ∨ y = x := by
+  unfold setAdd
+  split
+  · rename_i h
+    have : x ∈ l := by simpa using h
+    constructor
+    · intro hy; exact Or.inl hy
+    · rintro (hy | hy)
+      · exact hy
+      · subst hy; exact this
+  · simp
+
+theorem addKeys_le : ∀ (batch : List (Nat × Nat)) (acc : List Nat), (addKeys acc batch).length ≤ acc.length + batch.length := by
+  intro batch
+  induction batch with
+  | nil => intro acc; simp [addKeys]
+  | cons b bs ih =>
+    intro acc
+    have h := ih (setAdd acc b.1)
+    have hl := setAdd_len acc b.1
+    simp only [addKeys, List.foldl_cons, List.length_cons] at h ⊢
+    split at hl <;> omega
+
+theorem addKeys_mem : ∀ (batch : List (Nat × Nat)) (acc : List Nat) (y : Nat), y ∈ acc → y ∈ addKeys acc batch := by
+  intro batch
+  induction batch with
+  | nil => intro acc y h; simpa [addKeys] using h
+  | cons b bs ih =>
+    intro acc y h
+    simp only [addKeys, List.foldl_cons]
+    exact ih _ y ((setAdd_mem acc b.1 y).mpr (Or.inl h))
+
+/-- the number of distinct data IDs equals the number of rows exactly when no data ID is repeated (and none was there before) -/
+theorem addKeys_len_iff : ∀ (batch : List (Nat × Nat)) (acc : List Nat),
+    (addKeys acc batch).length = acc.length + batch.length ↔ (distinctKeys batch = true ∧ ∀ b ∈ batch, b.1 ∉ acc) := by
+  intro batch
+  induction batch with
+  | nil => intro acc; simp [addKeys, distinctKeys]
+  | cons b bs ih =>
+    intro acc
+    have hle := addKeys_le bs (setAdd acc b.1)
+    have hl := setAdd_len acc b.1
+    have hih := ih (setAdd acc b.1)
+    simp only [addKeys, List.foldl_cons, List.length_cons] at hle hih ⊢
+    by_cases hb : acc.contains b.1 = true
+    · -- the key was there already: one short for ever
+      simp only [hb, if_true] at hl
+      constructor
+      · intro h; exfalso; omega
+      · rintro ⟨_, h2⟩
+        exact absurd (by simpa using hb) (h2 b (List.mem_cons_self))
+    · simp only [hb, Bool.false_eq_true, if_false] at hl
+      have hb' : b.1 ∉ acc := by simpa using hb
+      constructor
+      · intro h
+        have h' : (List.foldl (fun a b => setAdd a b.1) (setAdd acc b.1) bs).length = (setAdd acc b.1).length + bs.length := by omega
+        obtain ⟨hd, hn⟩ := hih.mp h'
+        refine ⟨?_, ?_⟩
+        · simp only [distinctKeys, Bool.and_eq_true, Bool.not_eq_true', hd, and_true]
+          rw [List.any_eq_false]
+          intro b' hb'mem
+          have := hn b' hb'mem
+          rw [setAdd_mem] at this
+          simp only [not_or] at this
+          simpa using this.2
+        · intro b' hb'mem
+          rcases List.mem_cons.mp hb'mem with h1 | h1
+          · rw [h1]; exact hb'
+          · have := hn b' h1
+            rw [setAdd_mem] at this
+            exact fun hc => this (Or.inl hc)
+      · rintro ⟨hd, hn⟩
+        simp only [distinctKeys, Bool.and_eq_true, Bool.not_eq_true'] at hd
+        have hany := List.any_eq_false.mp hd.1
+        have : (List.foldl (fun a b => setAdd a b.1) (setAdd acc b.1) bs).length = (setAdd acc b.1).length + bs.length := by
+          apply hih.mpr
+          refine ⟨hd.2, ?_⟩
+          intro b' hb'mem
+          rw [setAdd_mem]
+          rintro (hc | hc)
+          · exact hn b' (List.mem_cons_of_mem _ hb'mem) hc
+          · have := hany b' hb'mem
+            simp at this
+            exact this hc
+        omega
+
+theorem certify_fold (ts : TS) : ∀ (batch : List (Nat × Nat)) (rows : List Row) (ids : List Nat),
+    batch.foldl (fun (acc : List Row × List Nat) dataset =>
+        (acc.1 ++ [(⟨dataset.1, dataset.2, ts⟩ : Row)], setAdd acc.2 dataset.1)) (rows, ids) =
+      (rows ++ batch.map (fun b => (⟨b.1, b.2, ts⟩ : Row)), addKeys ids batch) := by
+  intro batch
+  induction batch with
+  | nil => intro rows ids; simp [addKeys]
+  | cons b bs ih =>
+    intro rows ids
+    rw [List.foldl_cons, ih]
+    simp [addKeys]
+
+/-- the SELECT COUNT of `certify`: rows of the table that overlap the timespan and carry one of the call's data IDs -/
+def conflictCount (ts : TS) (tbl : List IdRow) (rows : List Row) : Nat :=
+  (tbl.filter fun r => TsPy.overlaps r.2.ts ts && rows.any (fun x => x.key == r.2.key)).length
+
+/-- **The Python half of `certify` (SQLite branch) as translated from the source on every run** — build the rows, count the
+distinct data IDs, refuse a call that repeats one, refuse when the overlap query finds a row, INSERT — is `Calib.certify`, the
+model the no-overlap theorems are about: for every table, batch and timespan. -/
+theorem translated_certify (s : List IdRow) (batch : List (Nat × Nat)) (ts : TS) :
+    (Gen.DecertifyPy.certifyPy ts batch (conflictCount ts) s).map (fun t => t.map (·.2)) = certify (s.map (·.2)) batch ts := by
+  have hgen : Gen.DecertifyPy.certifyPy ts batch (conflictCount ts) s =
+      (let r := batch.foldl (fun (acc : List Row × List Nat) dataset =>
+          (acc.1 ++ [(⟨dataset.1, dataset.2, ts⟩ : Row)], setAdd acc.2 dataset.1)) ([], [])
+       if r.1.isEmpty then Except.ok s
+       else if (decide (r.2.length ≠ r.1.length) && !(TsPy.isEmpty ts)) then Except.error "ConflictingDefinitionError"
+       else if decide (((conflictCount ts s r.1 : Nat) : Int) > 0) then Except.error "ConflictingDefinitionError"
+       else Except.ok (s ++ r.1.map fun x => ((0 : Nat), x))) := rfl
+  rw [hgen, certify_fold]
+  simp only [List.nil_append]
+  unfold certify
+  cases batch with
+  | nil => simp [Except.map]
+  | cons b bs =>
+    have hne : ((b :: bs).map (fun b => (⟨b.1, b.2, ts⟩ : Row))).isEmpty = false := by simp
+    simp only [hne, Bool.false_eq_true, if_false, List.isEmpty_cons]
+    have hlen := addKeys_len_iff (b :: bs) []
+    simp only [List.length_nil, Nat.zero_add, List.not_mem_nil, not_false_eq_true, implies_true, and_true] at hlen
+    have hdec : decide ((addKeys [] (b :: bs)).length ≠ ((b :: bs).map (fun b => (⟨b.1, b.2, ts⟩ : Row))).length) = !distinctKeys (b :: bs) := by
+      rw [List.length_map]
+      by_cases hd : distinctKeys (b :: bs) = true
+      · simp [hd, hlen.mpr hd]
+      · have : ¬ (addKeys [] (b :: bs)).length = (b :: bs).length := fun h => hd (hlen.mp h)
+        have this' : ¬ (addKeys [] (b :: bs)).length = bs.length + 1 := by simpa using this
+        simp [hd, this']
+    rw [hdec]
+    by_cases h1 : (!distinctKeys (b :: bs) && !TsPy.isEmpty ts) = true
+    · simp [h1, Except.map]
+    · simp only [h1, Bool.false_eq_true, if_false]
+      unfold certifyCore conflictCount
+      have hcount : (s.filter fun r => TsPy.overlaps r.2.ts ts && ((b :: bs).map (fun b => (⟨b.1, b.2, ts⟩ : Row))).any (fun x => x.key == r.2.key)).length =
+          ((s.map (·.2)).filter fun r => TsPy.overlaps r.ts ts && (b :: bs).any (fun b => b.1 == r.key)).length := by
+        rw [List.filter_map, List.length_map]
+        congr 1
+        apply List.filter_congr
+        intro r _
+        simp only [Function.comp, List.any_map]
+        have hany : ∀ l : List (Nat × Nat), l.any ((fun x : Row => x.key == r.2.key) ∘ fun b => (⟨b.1, b.2, ts⟩ : Row)) = l.any (fun b => b.1 == r.2.key) := by
+          intro l
+          induction l with
+          | nil => rfl
+          | cons x xs ihx => simp only [List.any_cons, ihx, Function.comp]
+        rw [hany]
+      simp only [hcount]
+      generalize ((s.map (·.2)).filter fun r => TsPy.overlaps r.ts ts && (b :: bs).any (fun b => b.1 == r.key)).length = N
+      by_cases h2 : N > 0
+      · have : ((N : Nat) : Int) > 0 := by omega
+        simp [h2, this, Except.map]
+      · have : ¬ ((N : Nat) : Int) > 0 := by omega
+        simp [h2, this, Except.map, Function.comp]
+
+/-- non-vacuity: two datasets with one data ID in one call are refused, whatever the table holds -/
+example : (Gen.DecertifyPy.certifyPy ⟨0, 10⟩ [(1, 7), (1, 8)] (conflictCount ⟨0, 10⟩) []).toOption = none := by decide
+
+end Certify
 
 end C04.Translated
 
